@@ -93,16 +93,19 @@ class C14(Config):
               "Local Open Scope Z_scope.")
     bin = "c14"
     release_too = False
-    n_tags = 60
+    n_tags = 70
     classes = {}
     shard_size = 200
     harness_timeout = 3000
     rule = ("requests = sequences of Builder add_*/propose_version/with_expiry_height calls over transparent P2PKH inputs, "
+            "m-of-n multisig P2SH inputs (keys registered in script order, reversed, rotated, subsets), "
             "P2PKH/P2SH/null-data outputs, Sapling, Orchard (plain and change outputs) and Ironwood spends/outputs; "
             "exhaustive version-gate lattice (2 networks x heights at every activation +-1 x proposed version x pool in use), "
             "exhaustive padding lattice (pad config x spends 0..2 x outputs 0..2 x pool at NU5/NU6.2/NU6.3), and random "
             "requests from one ChaCha8 stream, each re-run after model-free balancing with the amount the builder itself "
-            "reported (exact, +1, -1); routes mock_build / build with mock Sapling provers / build_for_pczt + PCZT Creator; "
+            "reported (exact, +1, -1); exhaustive DeferredPcztBuilder lattice (Ironwood-only and Orchard-only shapes, k spends x l outputs, "
+            "k,l in 0..3, five padding configs, balanced / over-funded / under-funded) and P2SH lattice; "
+            "routes mock_build / build with mock Sapling provers / build_for_pczt + PCZT Creator / DeferredPcztBuilder::build_for_pczt; "
             "fee rules ZIP 317 standard and a recording linear rule; distinct = distinct (request, outcome) lines")
     trusted_base = [
         "Coq 8.16.1 kernel, vm_compute (no native_compute)",
@@ -115,13 +118,13 @@ class C14(Config):
     ]
     assumptions = [
         "spend witnesses supplied to the builder are consistent with the configured anchors and keys (the harness builds real note commitment trees)",
-        "transparent inputs are P2PKH coins whose key is in the signing set (P2SH inputs are not exercised)",
+        "transparent inputs are P2PKH coins whose key is in the signing set, or m-of-n multisig P2SH coins (1 <= m <= n <= 3) whose redeem script lists the multisig keys in index order",
         "Orchard/Ironwood proof creation and Sapling proving are outside the model (mock Sapling provers; real Orchard proofs only in a handful of thorough cases)",
         "usize is 64 bits",
     ]
     partial_clauses = [
         "recipient decryptability (value, memo, recipient at the index reported by the builder metadata) is an observed boolean checked per case, not a theorem",
-        "transparent signature validity under signature_hash(index, spent coin script, value, SIGHASH_ALL) is an observed boolean checked per case, not a theorem",
+        "transparent signature validity under signature_hash(index, spent coin script / redeem script, value, SIGHASH_ALL) - P2PKH by OP_CHECKSIG against the pushed key, P2SH multisig by OP_CHECKMULTISIG's ordered matching - is an observed boolean checked per case; the theorems sig_index / multisig ordering are about the symbolic signing model (SignModel.v), tied to the code by that observed check only",
         "zero value of padding is observed only on the PCZT route (note values are visible there); on transaction routes padding is constrained through counts and value balances",
     ]
 
